@@ -460,3 +460,11 @@ func RetVal(ret *ssa.Return, i int) ssa.Value {
 	}
 	return v
 }
+
+// GoTarget returns the function a go statement starts: the literal it creates, or the named function it calls.
+func GoTarget(g *ssa.Go) *ssa.Function {
+	if f := ClosureFn(g.Call.Value); f != nil {
+		return f
+	}
+	return g.Call.StaticCallee()
+}
